@@ -65,41 +65,43 @@ Inductive event :=
 
 (* ------------------------------------------------------------------ dynamic state *)
 Record node := mkNode {
-  sval : Z;                        (* signal value *)
-  subs : list nat;                 (* SubscriberSet *)
-  st : nstate;                     (* memo state *)
-  cache : option Z;                (* memo value *)
-  srcs : list nat;                 (* SourceSet of a memo / effect *)
-  rlog : list (nat * Z * bool);    (* ghost: reads of the last run (node, value, tracked) *)
-  since : list nat;                (* ghost: causes recorded since the last run *)
-  edirty : bool;                   (* EffectInner.dirty *)
-  eflag : bool;                    (* channel Inner.set *)
-  ereg : bool;                     (* AtomicWaker holds the task's waker *)
-  efirst : bool;                   (* first_run *)
-  epaused : bool;                  (* owner.paused() *)
-  ealive : bool;                   (* Arc<RwLock<EffectInner>> not yet dropped *)
-  edone : bool;                    (* task finished (stream ended) *)
-  emissed : bool                   (* ghost: a notification was consumed while paused *)
+  sval : Z                       (* signal value *);
+  subs : list nat                (* SubscriberSet *);
+  st : nstate                    (* memo state *);
+  cache : option Z               (* memo value *);
+  srcs : list nat                (* SourceSet of a memo / effect *);
+  rlog : list (nat * Z * bool)   (* ghost: reads of the last run (node, value, tracked) *);
+  since : list nat               (* ghost: causes recorded since the last run *);
+  edirty : bool                  (* EffectInner.dirty *);
+  eflag : bool                   (* channel Inner.set *);
+  ereg : bool                    (* AtomicWaker holds the task's waker *);
+  efirst : bool                  (* first_run *);
+  epaused : bool                 (* owner.paused() *);
+  ealive : bool                  (* Arc<RwLock<EffectInner>> not yet dropped *);
+  edone : bool                   (* task finished (stream ended) *);
+  emissed : bool                 (* ghost: a notification was consumed while paused *);
+  epoll : bool                   (* ghost: not yet spawned, or in the middle of one iteration of its task loop *)
 }.
 
 Definition dnode : node :=
-  mkNode 0 [] Dirty None [] [] [] false false false false false false false false.
+  mkNode 0 [] Dirty None [] [] [] false false false false false false false false false.
 
-Definition set_sval n v := mkNode v (subs n) (st n) (cache n) (srcs n) (rlog n) (since n) (edirty n) (eflag n) (ereg n) (efirst n) (epaused n) (ealive n) (edone n) (emissed n).
-Definition set_subs n v := mkNode (sval n) v (st n) (cache n) (srcs n) (rlog n) (since n) (edirty n) (eflag n) (ereg n) (efirst n) (epaused n) (ealive n) (edone n) (emissed n).
-Definition set_st n v := mkNode (sval n) (subs n) v (cache n) (srcs n) (rlog n) (since n) (edirty n) (eflag n) (ereg n) (efirst n) (epaused n) (ealive n) (edone n) (emissed n).
-Definition set_cache n v := mkNode (sval n) (subs n) (st n) v (srcs n) (rlog n) (since n) (edirty n) (eflag n) (ereg n) (efirst n) (epaused n) (ealive n) (edone n) (emissed n).
-Definition set_srcs n v := mkNode (sval n) (subs n) (st n) (cache n) v (rlog n) (since n) (edirty n) (eflag n) (ereg n) (efirst n) (epaused n) (ealive n) (edone n) (emissed n).
-Definition set_rlog n v := mkNode (sval n) (subs n) (st n) (cache n) (srcs n) v (since n) (edirty n) (eflag n) (ereg n) (efirst n) (epaused n) (ealive n) (edone n) (emissed n).
-Definition set_since n v := mkNode (sval n) (subs n) (st n) (cache n) (srcs n) (rlog n) v (edirty n) (eflag n) (ereg n) (efirst n) (epaused n) (ealive n) (edone n) (emissed n).
-Definition set_edirty n v := mkNode (sval n) (subs n) (st n) (cache n) (srcs n) (rlog n) (since n) v (eflag n) (ereg n) (efirst n) (epaused n) (ealive n) (edone n) (emissed n).
-Definition set_eflag n v := mkNode (sval n) (subs n) (st n) (cache n) (srcs n) (rlog n) (since n) (edirty n) v (ereg n) (efirst n) (epaused n) (ealive n) (edone n) (emissed n).
-Definition set_ereg n v := mkNode (sval n) (subs n) (st n) (cache n) (srcs n) (rlog n) (since n) (edirty n) (eflag n) v (efirst n) (epaused n) (ealive n) (edone n) (emissed n).
-Definition set_efirst n v := mkNode (sval n) (subs n) (st n) (cache n) (srcs n) (rlog n) (since n) (edirty n) (eflag n) (ereg n) v (epaused n) (ealive n) (edone n) (emissed n).
-Definition set_epaused n v := mkNode (sval n) (subs n) (st n) (cache n) (srcs n) (rlog n) (since n) (edirty n) (eflag n) (ereg n) (efirst n) v (ealive n) (edone n) (emissed n).
-Definition set_ealive n v := mkNode (sval n) (subs n) (st n) (cache n) (srcs n) (rlog n) (since n) (edirty n) (eflag n) (ereg n) (efirst n) (epaused n) v (edone n) (emissed n).
-Definition set_edone n v := mkNode (sval n) (subs n) (st n) (cache n) (srcs n) (rlog n) (since n) (edirty n) (eflag n) (ereg n) (efirst n) (epaused n) (ealive n) v (emissed n).
-Definition set_emissed n v := mkNode (sval n) (subs n) (st n) (cache n) (srcs n) (rlog n) (since n) (edirty n) (eflag n) (ereg n) (efirst n) (epaused n) (ealive n) (edone n) v.
+Definition set_sval n v := mkNode v (subs n) (st n) (cache n) (srcs n) (rlog n) (since n) (edirty n) (eflag n) (ereg n) (efirst n) (epaused n) (ealive n) (edone n) (emissed n) (epoll n).
+Definition set_subs n v := mkNode (sval n) v (st n) (cache n) (srcs n) (rlog n) (since n) (edirty n) (eflag n) (ereg n) (efirst n) (epaused n) (ealive n) (edone n) (emissed n) (epoll n).
+Definition set_st n v := mkNode (sval n) (subs n) v (cache n) (srcs n) (rlog n) (since n) (edirty n) (eflag n) (ereg n) (efirst n) (epaused n) (ealive n) (edone n) (emissed n) (epoll n).
+Definition set_cache n v := mkNode (sval n) (subs n) (st n) v (srcs n) (rlog n) (since n) (edirty n) (eflag n) (ereg n) (efirst n) (epaused n) (ealive n) (edone n) (emissed n) (epoll n).
+Definition set_srcs n v := mkNode (sval n) (subs n) (st n) (cache n) v (rlog n) (since n) (edirty n) (eflag n) (ereg n) (efirst n) (epaused n) (ealive n) (edone n) (emissed n) (epoll n).
+Definition set_rlog n v := mkNode (sval n) (subs n) (st n) (cache n) (srcs n) v (since n) (edirty n) (eflag n) (ereg n) (efirst n) (epaused n) (ealive n) (edone n) (emissed n) (epoll n).
+Definition set_since n v := mkNode (sval n) (subs n) (st n) (cache n) (srcs n) (rlog n) v (edirty n) (eflag n) (ereg n) (efirst n) (epaused n) (ealive n) (edone n) (emissed n) (epoll n).
+Definition set_edirty n v := mkNode (sval n) (subs n) (st n) (cache n) (srcs n) (rlog n) (since n) v (eflag n) (ereg n) (efirst n) (epaused n) (ealive n) (edone n) (emissed n) (epoll n).
+Definition set_eflag n v := mkNode (sval n) (subs n) (st n) (cache n) (srcs n) (rlog n) (since n) (edirty n) v (ereg n) (efirst n) (epaused n) (ealive n) (edone n) (emissed n) (epoll n).
+Definition set_ereg n v := mkNode (sval n) (subs n) (st n) (cache n) (srcs n) (rlog n) (since n) (edirty n) (eflag n) v (efirst n) (epaused n) (ealive n) (edone n) (emissed n) (epoll n).
+Definition set_efirst n v := mkNode (sval n) (subs n) (st n) (cache n) (srcs n) (rlog n) (since n) (edirty n) (eflag n) (ereg n) v (epaused n) (ealive n) (edone n) (emissed n) (epoll n).
+Definition set_epaused n v := mkNode (sval n) (subs n) (st n) (cache n) (srcs n) (rlog n) (since n) (edirty n) (eflag n) (ereg n) (efirst n) v (ealive n) (edone n) (emissed n) (epoll n).
+Definition set_ealive n v := mkNode (sval n) (subs n) (st n) (cache n) (srcs n) (rlog n) (since n) (edirty n) (eflag n) (ereg n) (efirst n) (epaused n) v (edone n) (emissed n) (epoll n).
+Definition set_edone n v := mkNode (sval n) (subs n) (st n) (cache n) (srcs n) (rlog n) (since n) (edirty n) (eflag n) (ereg n) (efirst n) (epaused n) (ealive n) v (emissed n) (epoll n).
+Definition set_emissed n v := mkNode (sval n) (subs n) (st n) (cache n) (srcs n) (rlog n) (since n) (edirty n) (eflag n) (ereg n) (efirst n) (epaused n) (ealive n) (edone n) v (epoll n).
+Definition set_epoll n v := mkNode (sval n) (subs n) (st n) (cache n) (srcs n) (rlog n) (since n) (edirty n) (eflag n) (ereg n) (efirst n) (epaused n) (ealive n) (edone n) (emissed n) v.
 
 Record state := mkState {
   nodes : list node;
